@@ -79,6 +79,11 @@ def truth_term(ctx, v):
         return True
     if isinstance(v, Opaque):
         raise Unsupported('truthiness of opaque value %s' % v.name)
+    ip = getattr(ctx, 'interp', None)
+    if ip is not None and isinstance(v, Sym):
+        for k, fn in ip.reg.sym_truth.items():
+            if isinstance(v, k):
+                return fn(ip, v)
     return bool(v)
 
 
